@@ -25,6 +25,7 @@ type Term struct {
 	Args []*Term
 	Hint string       // display only
 	Obj  types.Object // for field/param leaves: the object (not part of identity)
+	Aux  any          // closure payload (not part of identity)
 	str  string
 	key  string
 }
@@ -468,7 +469,7 @@ func (t *Term) subst(f func(*Term) *Term) *Term {
 			if !changed {
 				out = t
 			} else {
-				out = normalise(&Term{Op: t.Op, S: t.S, Args: args, Hint: t.Hint, Obj: t.Obj})
+				out = normalise(&Term{Op: t.Op, S: t.S, Args: args, Hint: t.Hint, Obj: t.Obj, Aux: t.Aux})
 			}
 		}
 		memo[t] = out
